@@ -1,5 +1,7 @@
 import Anysystem.Props.C04
 import Anysystem.Proofs.R4
+import Anysystem.Proofs.R5Snap
+import Anysystem.Proofs.R5Rel
 #print axioms Anysystem.snapshot_first_offered
 #print axioms Anysystem.snapshot_timers_in_firing_order
 #print axioms Anysystem.snapshotSource_complete
@@ -12,3 +14,6 @@ import Anysystem.Proofs.R4
 #print axioms Anysystem.TimedRel.visible
 #print axioms Anysystem.popped_timer_unblocked
 #print axioms Anysystem.R4Demo.demo_step
+#print axioms Anysystem.snapshot_sim'
+#print axioms Anysystem.timedRel_snapshot
+#print axioms Anysystem.ticks_snapTimeLaws
